@@ -751,6 +751,9 @@ impl<'a> VariableParserExtension<'a> {
 
         let wrapped_start = if cap == 0 { 0 } else { head % cap };
         let head_len = cap - wrapped_start;
+        // the fields come from debugee memory that may hold anything: a ring buffer never
+        // holds more elements than its capacity, and only fetched bytes are interpreted
+        let len = len.min(cap);
 
         let slice_ranges = if head_len >= len {
             (wrapped_start..wrapped_start + len, 0..0)
@@ -771,7 +774,7 @@ impl<'a> VariableParserExtension<'a> {
             .enumerate()
             .filter_map(|(i, real_idx)| {
                 let offset = real_idx * el_type_size;
-                let el_raw_data = &data[offset..(real_idx + 1) * el_type_size];
+                let el_raw_data = data.get(offset..(real_idx + 1) * el_type_size)?;
                 let el_data = ObjectBinaryRepr {
                     raw_data: data.slice_ref(el_raw_data),
                     address: Some(data_ptr + offset),
